@@ -612,6 +612,13 @@ def one_run(spec, rng, res, model, gitdir, d, sel, roots):
             amb["GIT_GRAFT_FILE"] = gf
     plan = None
     pdir = None
+    if len(model.refs) >= 400 and plan is None and spec.get("shimdir") and res["runs"] == 1:
+        # children that take seconds to start reading (cold cache, loaded machine) while thousands of names wait to be fed
+        pdir = os.path.join(d, "latestart%d" % res["runs"])
+        plan = R.make_plan(pdir, [{"sig": sg, "ord": -1, "mode": "delay", "pre_ms": rng.choice([1500, 2600, 4200]), "max_ms": 4500}
+                                  for sg in rng.sample(["rev-list", "cat-file --batch-check", "cat-file --batch", "for-each-ref"], rng.randint(1, 2))
+                                  + ["rev-list"]][:3])
+        res["late_start_runs"] = res.get("late_start_runs", 0) + 1
     if spec.get("permute") and rng.random() < spec["permute"]:
         pdir = os.path.join(d, "plan%d" % res["runs"])
         plan = R.make_plan(pdir, [{"sig": "rev-list", "ord": -1, "mode": "permute", "seed": rng.getrandbits(31)}])
